@@ -1,5 +1,6 @@
 import StepModel.ExpDecl
 import StepModel.ExpParseLemmas
+import StepModel.ExpDeclSynLemmas
 /-!
 # C07 — pretty-printed EXPRESS is valid, equivalent to its source and stable
 
@@ -342,6 +343,39 @@ theorem C07_labelled_where (l : String) (e : Expr) (h : l ∉ ExpPrec.whereNoLab
 theorem C07_no_shared_repeat (s : Schema) : s.shared = Shared.clean := by
   have h : ExpPrec.repeatOverwritesCountType = false := rfl
   simp [Schema.shared, h]
+
+/-! ### declarations: types and formal parameters -/
+
+/-- `( precision )` / `FIXED` are printed for every simple type that can carry them (regenerated from `TYPE_body_out`) -/
+theorem C07_precision_printed : ∀ k ∈ ["INTEGER", "REAL", "STRING", "BINARY"], ExpPrec.precisionKinds.contains k = true := by
+  decide
+
+/-- `ALGargs_out` starts a new parameter group when VAR changes (regenerated from `pretty_alg.c`) -/
+theorem C07_args_merge_checks_var : ExpPrec.argsMergeChecksVar = true := rfl
+
+/-- **Types: print/parse round trip** — every type form of the grammar (simple types with `( precision )` and `FIXED`,
+ARRAY/BAG/LIST/SET with bounds, UNIQUE, OPTIONAL, GENERIC[:label], AGGREGATE[:label] OF, named types, nested to any
+depth) is read back from exppp's tokens as exactly the same type; embedded expressions are single tokens here
+(their round trip is `C07_parse_print`). -/
+theorem C07_type_roundtrip (t : Ty) (hw : wfTy t) (r : List DTok) (hr : TyFol r) :
+    parseTy (tyDepth t) (tyToks t ++ r) = some (t, r) :=
+  type_roundtrip t hw _ (Nat.le_refl _) r hr
+
+/-- **Formal parameters: print/parse round trip** — whatever grouping `ALGargs_out` chooses, the header is read back as
+exactly the (name, VAR, type) triples of the parameters; in particular no parameter gains or loses VAR and none changes its
+type.  `obj` is the identity of the `Type` object the merge rule compares; parameters sharing it have the same type. -/
+theorem C07_params_roundtrip (ps : List Param) (hne : ps ≠ []) (hwf : ∀ p ∈ ps, wfTy p.ty)
+    (hobj : ∀ a ∈ ps, ∀ b ∈ ps, a.obj = b.obj → a.ty = b.ty) (D : Nat) (hD : ∀ p ∈ ps, tyDepth p.ty ≤ D) (r : List DTok) :
+    parseParams (ps.length + D + 1) (argsToks ps ++ .sym ")" :: r) = some (ps.map Param.triple, .sym ")" :: r) :=
+  params_roundtrip ps.length ps (Nat.le_refl _) hne hwf hobj D hD _ (Nat.le_refl _) r
+
+/-- the shape of the seeded regression C07-b1: three adjacent parameters of one named type, the middle one VAR -/
+example : argsToks [⟨"lo", false, .named "measure", 0⟩, ⟨"v", true, .named "measure", 0⟩, ⟨"hi", false, .named "measure", 0⟩]
+    = [.id "lo", .sym ":", .id "measure", .sym ";", .kw "VAR", .id "v", .sym ":", .id "measure", .sym ";",
+       .id "hi", .sym ":", .id "measure"] := by decide
+example : tyToks (.aggr "LIST" (some (.lit (.int 1), .lit .infinity)) false false (.simple "REAL" (some (.ident "digits")) false))
+    = [.kw "LIST", .sym "[", .ex (.lit (.int 1)), .sym ":", .ex (.lit .infinity), .sym "]", .kw "OF", .kw "REAL",
+       .sym "(", .ex (.ident "digits"), .sym ")"] := by decide
 
 /-! ## layout layer -/
 
